@@ -84,10 +84,21 @@ class WorkerResult:
 def parse_worker_output(text, res):
     inflight = None
     pending_v = None
-    for line in text.splitlines():
+    # protocol lines are whole "\n"-terminated lines of a fixed shape; anything else on stdout (a debug build of the library
+    # prints raw address bytes, which may contain CR, NEL or other characters that str.splitlines() would split on) is ignored
+    import re
+    shapes = {"B": r"^B -?\d+$", "R": r"^R -?\d+ \S+ \S+ \S+$", "T": r"^T -?\d+$", "N": r"^N -?\d+ ", "V": r"^V -?\d+ \S+ .", "P": r"^P -?\d+ [\[{]",
+              "S": r"^S \{", "D": r"^D \d+$"}
+    for line in text.split("\n"):
         if not line:
             continue
         t = line[0]
+        if t not in shapes or not re.match(shapes[t], line):
+            continue
+        try:
+            json.loads(line.split(" ", 2)[2]) if t == "P" else (json.loads(line[2:]) if t == "S" else None)
+        except Exception:
+            continue
         if t == "B":
             inflight = int(line[2:])
             res.order.append(inflight)
